@@ -85,7 +85,8 @@ def check_C22(ctx, replay=None):
                 "records the command and the reply the model prescribes (append outcome with first sequence and per-event versions; "
                 "EGET record or null; scan pages with the has_more obligations; latest version / sequence; what every subscription "
                 "owes per unit in order, capped by acknowledged + window; an error and an unchanged state for 40 kinds of invalid "
-                "request). TLC checks the model's own properties exhaustively for small bounds (AppendReplyMatchesLog, PagingComplete, "
+                "request; two client connections, subscriptions owned by the connection that opened them, EACK from another connection "
+                "refused, RECONNECT ending the old connection's subscriptions; HELLO and PING). TLC checks the model's own properties exhaustively for small bounds (AppendReplyMatchesLog, PagingComplete, "
                 "FlagsConsistent, WindowBound, the store invariants) and generates 45-command histories by simulation (lax and strict "
                 "versioning). Each history is sent, command by command, over a real TCP connection as raw RESP3 to a real single-node "
                 "server (Database + ClusterActor + Server::listen, dev profile with overflow checks, three storage variants with segment "
